@@ -78,9 +78,12 @@ impl RoundState {
             // <https://gitlab.freedesktop.org/freetype/freetype/-/blob/57617782464411201ce7bbc93b086c1b4d7d84a5/src/truetype/ttinterp.c#L1958>
             HalfGrid => {
                 if distance >= 0 {
-                    (math::floor(distance) + 32).max(0)
+                    math::floor(distance).wrapping_add(32).max(0)
                 } else {
-                    (-(math::floor(-distance) + 32)).min(0)
+                    math::floor(distance.wrapping_neg())
+                        .wrapping_add(32)
+                        .wrapping_neg()
+                        .min(0)
                 }
             }
             // <https://gitlab.freedesktop.org/freetype/freetype/-/blob/57617782464411201ce7bbc93b086c1b4d7d84a5/src/truetype/ttinterp.c#L1913>
@@ -88,7 +91,7 @@ impl RoundState {
                 if distance >= 0 {
                     math::round(distance).max(0)
                 } else {
-                    (-math::round(-distance)).min(0)
+                    math::round(distance.wrapping_neg()).wrapping_neg().min(0)
                 }
             }
             // <https://gitlab.freedesktop.org/freetype/freetype/-/blob/57617782464411201ce7bbc93b086c1b4d7d84a5/src/truetype/ttinterp.c#L2094>
@@ -96,7 +99,9 @@ impl RoundState {
                 if distance >= 0 {
                     math::round_pad(distance, 32).max(0)
                 } else {
-                    (-math::round_pad(-distance, 32)).min(0)
+                    math::round_pad(distance.wrapping_neg(), 32)
+                        .wrapping_neg()
+                        .min(0)
                 }
             }
             // <https://gitlab.freedesktop.org/freetype/freetype/-/blob/57617782464411201ce7bbc93b086c1b4d7d84a5/src/truetype/ttinterp.c#L2005>
@@ -104,7 +109,7 @@ impl RoundState {
                 if distance >= 0 {
                     math::floor(distance).max(0)
                 } else {
-                    (-math::floor(-distance)).min(0)
+                    math::floor(distance.wrapping_neg()).wrapping_neg().min(0)
                 }
             }
             // <https://gitlab.freedesktop.org/freetype/freetype/-/blob/57617782464411201ce7bbc93b086c1b4d7d84a5/src/truetype/ttinterp.c#L2049>
@@ -112,22 +117,23 @@ impl RoundState {
                 if distance >= 0 {
                     math::ceil(distance).max(0)
                 } else {
-                    (-math::ceil(-distance)).min(0)
+                    math::ceil(distance.wrapping_neg()).wrapping_neg().min(0)
                 }
             }
             // <https://gitlab.freedesktop.org/freetype/freetype/-/blob/57617782464411201ce7bbc93b086c1b4d7d84a5/src/truetype/ttinterp.c#L2145>
             Super => {
                 if distance >= 0 {
-                    let val =
-                        ((distance + (self.threshold - self.phase)) & -self.period) + self.phase;
+                    let val = (distance.wrapping_add(self.threshold - self.phase) & -self.period)
+                        .wrapping_add(self.phase);
                     if val < 0 {
                         self.phase
                     } else {
                         val
                     }
                 } else {
-                    let val =
-                        -(((self.threshold - self.phase) - distance) & -self.period) - self.phase;
+                    let val = ((self.threshold - self.phase).wrapping_sub(distance) & -self.period)
+                        .wrapping_neg()
+                        .wrapping_sub(self.phase);
                     if val > 0 {
                         -self.phase
                     } else {
@@ -138,18 +144,20 @@ impl RoundState {
             // <https://gitlab.freedesktop.org/freetype/freetype/-/blob/57617782464411201ce7bbc93b086c1b4d7d84a5/src/truetype/ttinterp.c#L2199>
             Super45 => {
                 if distance >= 0 {
-                    let val = (((distance + (self.threshold - self.phase)) / self.period)
+                    let val = ((distance.wrapping_add(self.threshold - self.phase) / self.period)
                         * self.period)
-                        + self.phase;
+                        .wrapping_add(self.phase);
                     if val < 0 {
                         self.phase
                     } else {
                         val
                     }
                 } else {
-                    let val = -((((self.threshold - self.phase) - distance) / self.period)
+                    let val = (((self.threshold - self.phase).wrapping_sub(distance)
+                        / self.period)
                         * self.period)
-                        - self.phase;
+                        .wrapping_neg()
+                        .wrapping_sub(self.phase);
                     if val > 0 {
                         -self.phase
                     } else {
